@@ -8,15 +8,15 @@ open Rx Rx.Gen.Tap
 def absTap (g : TapObserver) : St1 := .tap g.func
 
 theorem tie_Tap_next (g : TapObserver) (v : Val) :
-    (TapObserver.next g v).map (fun r => (absTap r.1, r.2)) = some (St1.onNext (absTap g) v) := by
+    (TapObserver.next g v).map (fun r => (absTap r.1, r.2)) = some (Rs.lift (St1.onNext (absTap g) v)) := by
   rcases g with ⟨⟩ <;> rs_tie [TapObserver.next, absTap, St1.onNext]
 
 theorem tie_Tap_error (g : TapObserver) (e : Err) :
-    (TapObserver.error g e).map (fun r => r.2) = some (St1.onError' (absTap g) e).2 := by
+    (TapObserver.error g e).map (fun r => r.2) = some ((St1.onError' (absTap g) e).2.map Rs.Ev.n) := by
   rcases g with ⟨⟩ <;> rs_tie [TapObserver.error, absTap, St1.onError']
 
 theorem tie_Tap_complete (g : TapObserver) :
-    (TapObserver.complete g).map (fun r => r.2) = some (St1.onComplete' (absTap g)).2 := by
+    (TapObserver.complete g).map (fun r => r.2) = some ((St1.onComplete' (absTap g)).2.map Rs.Ev.n) := by
   rcases g with ⟨⟩ <;> rs_tie [TapObserver.complete, absTap, St1.onComplete']
 
 
